@@ -47,7 +47,7 @@ void stub_CreateHalfedges(struct Manifold_Impl *self, struct VecView_linalg_vec_
   __CPROVER_decreases(MG->mergeFromVert._size - i)
 #define LOOPSPEC_Impl_FromMeshGL64_1 \
   __CPROVER_assigns(i, __CPROVER_object_whole(self->vertPos_._base0.ptr_), __CPROVER_object_whole(self->properties_._base0.ptr_)) \
-  __CPROVER_loop_invariant(i <= NVERT64) \
+  __CPROVER_loop_invariant(i <= NVERT64 && NVERT64 * NUMPROP <= MG->vertProperties._size) /* floor-division fact stated once: keeps the index arithmetic linear */ \
   __CPROVER_decreases(NVERT64 - i)
 #define LOOPSPEC_Impl_FromMeshGL64_2 \
   __CPROVER_assigns(j, __CPROVER_object_whole(self->properties_._base0.ptr_)) \
@@ -55,7 +55,7 @@ void stub_CreateHalfedges(struct Manifold_Impl *self, struct VecView_linalg_vec_
   __CPROVER_decreases(numProp - j)
 #define LOOPSPEC_Impl_FromMeshGL64_3 \
   __CPROVER_assigns(i, __CPROVER_object_whole(self->halfedgeTangent_._base0.ptr_)) \
-  __CPROVER_loop_invariant(i <= self->halfedgeTangent_._base0.size_) \
+  __CPROVER_loop_invariant(i <= self->halfedgeTangent_._base0.size_ && self->halfedgeTangent_._base0.size_ * 4 <= MG->halfedgeTangent._size) \
   __CPROVER_decreases(self->halfedgeTangent_._base0.size_ - i)
 #define LOOPSPEC_Impl_FromMeshGL64_4 \
   __CPROVER_assigns(i, __CPROVER_object_whole(triRef._base0.ptr_)) \
@@ -70,7 +70,42 @@ void stub_CreateHalfedges(struct Manifold_Impl *self, struct VecView_linalg_vec_
   __CPROVER_assigns(i, GHOSTS, triProp._base0.size_, triVert._base0.size_, self->meshRelation_.triRef._base0.size_ LOOPTMPS_Impl_FromMeshGL64_6, \
                     __CPROVER_object_whole(triProp._base0.ptr_), __CPROVER_object_whole(triVert._base0.ptr_), \
                     __CPROVER_object_whole(self->meshRelation_.triRef._base0.ptr_)) \
-  __CPROVER_loop_invariant(i <= (unsigned long)numTri && NOT_DONE && triProp._base0.size_ <= i && \
+  __CPROVER_loop_invariant(i <= (unsigned long)numTri && (unsigned long)numTri * 3 <= MG->triVerts._size && NOT_DONE && triProp._base0.size_ <= i && \
+     (needsPropMap ? triVert._base0.size_ == triProp._base0.size_ : triVert._base0.size_ == 0) && \
+     (triRef._base0.size_ > 0 ? self->meshRelation_.triRef._base0.size_ <= i : 1) && \
+     (ghost_g < triProp._base0.size_ ? TRI_OK(triProp._base0.ptr_[ghost_g], (unsigned long)numVert) : 1) && \
+     (ghost_g < triVert._base0.size_ ? TRI_OK(triVert._base0.ptr_[ghost_g], (unsigned long)numVert) : 1)) \
+  __CPROVER_decreases((unsigned long)numTri - i)
+/* same loop contracts for the float / uint32_t instantiation */
+#define LOOPSPEC_Impl_FromMeshGL32_0 \
+  __CPROVER_assigns(i, GHOSTS, __CPROVER_object_whole(prop2vert._data) LOOPTMPS_Impl_FromMeshGL32_0) \
+  __CPROVER_loop_invariant(i <= MG->mergeFromVert._size && NOT_DONE) \
+  __CPROVER_decreases(MG->mergeFromVert._size - i)
+#define LOOPSPEC_Impl_FromMeshGL32_1 \
+  __CPROVER_assigns(i, __CPROVER_object_whole(self->vertPos_._base0.ptr_), __CPROVER_object_whole(self->properties_._base0.ptr_)) \
+  __CPROVER_loop_invariant(i <= NVERT64 && NVERT64 * NUMPROP <= MG->vertProperties._size) /* floor-division fact stated once: keeps the index arithmetic linear */ \
+  __CPROVER_decreases(NVERT64 - i)
+#define LOOPSPEC_Impl_FromMeshGL32_2 \
+  __CPROVER_assigns(j, __CPROVER_object_whole(self->properties_._base0.ptr_)) \
+  __CPROVER_loop_invariant(j <= numProp) \
+  __CPROVER_decreases(numProp - j)
+#define LOOPSPEC_Impl_FromMeshGL32_3 \
+  __CPROVER_assigns(i, __CPROVER_object_whole(self->halfedgeTangent_._base0.ptr_)) \
+  __CPROVER_loop_invariant(i <= self->halfedgeTangent_._base0.size_ && self->halfedgeTangent_._base0.size_ * 4 <= MG->halfedgeTangent._size) \
+  __CPROVER_decreases(self->halfedgeTangent_._base0.size_ - i)
+#define LOOPSPEC_Impl_FromMeshGL32_4 \
+  __CPROVER_assigns(i, __CPROVER_object_whole(triRef._base0.ptr_)) \
+  __CPROVER_loop_invariant(i <= runOriginalID._size) \
+  __CPROVER_decreases(runOriginalID._size - i)
+#define LOOPSPEC_Impl_FromMeshGL32_5 \
+  __CPROVER_assigns(tri, __CPROVER_object_whole(triRef._base0.ptr_)) \
+  __CPROVER_loop_invariant(tri <= runIndex._data[i + 1] / 3) \
+  __CPROVER_decreases(runIndex._data[i + 1] / 3 - tri)
+#define LOOPSPEC_Impl_FromMeshGL32_6 \
+  __CPROVER_assigns(i, GHOSTS, triProp._base0.size_, triVert._base0.size_, self->meshRelation_.triRef._base0.size_ LOOPTMPS_Impl_FromMeshGL32_6, \
+                    __CPROVER_object_whole(triProp._base0.ptr_), __CPROVER_object_whole(triVert._base0.ptr_), \
+                    __CPROVER_object_whole(self->meshRelation_.triRef._base0.ptr_)) \
+  __CPROVER_loop_invariant(i <= (unsigned long)numTri && (unsigned long)numTri * 3 <= MG->triVerts._size && NOT_DONE && triProp._base0.size_ <= i && \
      (needsPropMap ? triVert._base0.size_ == triProp._base0.size_ : triVert._base0.size_ == 0) && \
      (triRef._base0.size_ > 0 ? self->meshRelation_.triRef._base0.size_ <= i : 1) && \
      (ghost_g < triProp._base0.size_ ? TRI_OK(triProp._base0.ptr_[ghost_g], (unsigned long)numVert) : 1) && \
@@ -97,6 +132,7 @@ void h_import64(void) {
   struct Manifold_Impl impl = {0};  /* default-constructed Impl: every Vec empty */
   ghost_made_empty = 0; ghost_status = -1; ghost_reached_create = 0;
   ghost_ntri_in = m.triVerts._size / 3;
+  HARNESS_END; /* vacuity canary sits before the call: the harness makes no assumptions beyond allocation */
   Impl_FromMeshGL64(&impl, &m, 0);
   /* error-or-valid: the ladder ends in MakeEmpty(err) or hands a consistent mesh to CreateHalfedges */
   __CPROVER_assert(ghost_made_empty || ghost_reached_create, "ladder returns through MakeEmpty or reaches CreateHalfedges");
@@ -104,6 +140,30 @@ void h_import64(void) {
   __CPROVER_assert(IMPLIES(ghost_made_empty && ghost_status == 0 /*NoError*/,
                            NUMPROP != 0 && (unsigned)(m.vertProperties._size / (NUMPROP ? NUMPROP : 1)) == 0 && (unsigned)(m.triVerts._size / 3) == 0),
                    "an empty result with NoError only for an input without vertices and triangles");
+}
+void h_import32(void) {
+  struct MeshGLP_float_unsigned_int m;
+  m.numProp = NUMPROP;
+  ALLOC_STDVEC(m.vertProperties, float);
+  ALLOC_STDVEC(m.triVerts, unsigned int);
+  ALLOC_STDVEC(m.mergeFromVert, unsigned int);
+  ALLOC_STDVEC(m.mergeToVert, unsigned int);
+  ALLOC_STDVEC(m.runIndex, unsigned int);
+  ALLOC_STDVEC(m.runOriginalID, unsigned int);
+  ALLOC_STDVEC(m.runTransform, float);
+  ALLOC_STDVEC(m.runFlags, unsigned char);
+  ALLOC_STDVEC(m.faceID, unsigned int);
+  ALLOC_STDVEC(m.halfedgeTangent, float);
+  struct Manifold_Impl impl = {0};  /* default-constructed Impl: every Vec empty */
+  ghost_made_empty = 0; ghost_status = -1; ghost_reached_create = 0;
+  ghost_ntri_in = m.triVerts._size / 3;
   HARNESS_END;
+  Impl_FromMeshGL32(&impl, &m, 0);
+  /* error-or-valid: the ladder ends in MakeEmpty(err) or hands a consistent mesh to CreateHalfedges */
+  __CPROVER_assert(ghost_made_empty || ghost_reached_create, "ladder returns through MakeEmpty or reaches CreateHalfedges");
+  __CPROVER_assert(!(ghost_made_empty && ghost_reached_create), "no MakeEmpty after the hand-off inside the ladder");
+  __CPROVER_assert(IMPLIES(ghost_made_empty && ghost_status == 0 /*NoError*/,
+                           NUMPROP != 0 && (unsigned)(m.vertProperties._size / (NUMPROP ? NUMPROP : 1)) == 0 && (unsigned)(m.triVerts._size / 3) == 0),
+                   "an empty result with NoError only for an input without vertices and triangles");
 }
 #endif
